@@ -8,6 +8,7 @@ import (
 	"sync"
 	"sync/atomic"
 	"testing"
+	"time"
 
 	goom "github.com/tencent/goom/internal/arch/arm64asm"
 	ref "github.com/tencent/goom/zzverif/ref/arm64asm"
@@ -16,10 +17,13 @@ import (
 
 // excluded: the system-instruction encoding space, where goom's fork leaves
 // DC/TLBI SYS operands undecoded on purpose.  Defined by encoding only.
-func excluded(w uint32) bool { return w&0xFFC00000 == 0xD5000000 }
+// (SYS #op1, Cn, Cm, #op2{, Xt}: 0xD5080000 under mask 0xFFF80000 - measured: the only words of the whole system
+// space 0xD5000000..0xD53FFFFF on which the two decoders differ, 2 927 of them.)
+func excluded(w uint32) bool { return w&0xFFF80000 == 0xD5080000 }
 
 type result struct {
 	words, decoded, undecodable, exclWords, pcrel int64
+	slot                                          *int64 // watchdog slot: the word being decoded | 1<<40, 0 when idle
 }
 
 // checkRange runs both decoders over words produced by next(); a panic in
@@ -28,9 +32,15 @@ type result struct {
 func checkWord(w uint32, rep *vmon.Report, ops map[string]struct{}, res *result) {
 	var buf [4]byte
 	binary.LittleEndian.PutUint32(buf[:], w)
+	if res.slot != nil {
+		atomic.StoreInt64(res.slot, int64(w)|1<<40)
+	}
 	gi, gerr := goom.Decode(buf[:])
 	if gerr == nil {
 		_ = gi.String()
+	}
+	if res.slot != nil {
+		atomic.StoreInt64(res.slot, 0)
 	}
 	res.words++
 	ri, rerr := ref.Decode(buf[:])
@@ -132,13 +142,63 @@ func TestC17(t *testing.T) {
 			s := uint64(tb) << 24
 			jobs = append(jobs, job{s + (seed*31)%257, s + (1 << 24), 257})
 		}
+		jobs = append(jobs, job{0xD5000000, 0xD5400000, 3}) // the system space densely
 		rep.Note("mode", fmt.Sprintf("stride 1021 offset %d over 2^32 + stride 257 over %d branch/address/system top bytes", off, len(tops)))
 	}
 
+	// aim at every row of the format table: the row's fixed bits with all variable bits zero, all ones, and a few
+	// random fillings (rows whose whole word is fixed - NOP, WFI, SEV ... - are hit by nothing else in the quick tier)
+	var rowWords []uint32
+	if shard == 0 {
+		rr := vmon.NewRng(seed, 17)
+		fills := 24
+		if vmon.Thorough() {
+			fills = 512
+		}
+		for _, r := range ref.VerifRows() {
+			mask, val := r[0], r[1]
+			rowWords = append(rowWords, val, val|^mask)
+			for k := 0; k < fills; k++ {
+				rowWords = append(rowWords, val|uint32(rr.Uint64())&^mask)
+			}
+		}
+		rep.Stat("table_rows_aimed_at", int64(len(ref.VerifRows())))
+	}
+	// watchdog: a word whose decoding does not come back within 30 s never will (a decode takes well under a
+	// microsecond): Decode "returns either an instruction or an error" is violated by not returning at all
+	slots := make([]int64, workers+1)
+	hung := make(chan uint32, 1)
+	stopDog := make(chan struct{})
+	go func() {
+		last := make([]int64, len(slots))
+		age := make([]int, len(slots))
+		for {
+			select {
+			case <-stopDog:
+				return
+			case <-time.After(time.Second):
+			}
+			for i := range slots {
+				v := atomic.LoadInt64(&slots[i])
+				if v != 0 && v == last[i] {
+					if age[i]++; age[i] >= 30 {
+						select {
+						case hung <- uint32(v):
+						default:
+						}
+						return
+					}
+				} else {
+					last[i], age[i] = v, 0
+				}
+			}
+		}
+	}()
 	var mu sync.Mutex
 	allOps := map[string]struct{}{}
 	var tot result
 	var next int64 = -1
+	var slotNext int64 = -1
 	var wg sync.WaitGroup
 	for w := 0; w < workers; w++ {
 		wg.Add(1)
@@ -146,6 +206,7 @@ func TestC17(t *testing.T) {
 			defer wg.Done()
 			ops := map[string]struct{}{}
 			var res result
+			res.slot = &slots[atomic.AddInt64(&slotNext, 1)%int64(len(slots))]
 			for {
 				i := int(atomic.AddInt64(&next, 1))
 				if i >= len(jobs) {
@@ -165,7 +226,45 @@ func TestC17(t *testing.T) {
 			mu.Unlock()
 		}()
 	}
-	wg.Wait()
+	// the table rows first (one worker), then everything else
+	done := make(chan struct{})
+	go func() {
+		ops := map[string]struct{}{}
+		var res result
+		res.slot = &slots[workers]
+		for _, w := range rowWords {
+			func() {
+				defer func() {
+					if r := recover(); r != nil {
+						rep.Violate("C17/panic", fmt.Sprintf("word %#08x panicked: %v", w, r), map[string]interface{}{"word": w})
+					}
+				}()
+				checkWord(w, rep, ops, &res)
+			}()
+		}
+		mu.Lock()
+		for k := range ops {
+			allOps[k] = struct{}{}
+		}
+		tot.words += res.words
+		tot.decoded += res.decoded
+		tot.undecodable += res.undecodable
+		tot.exclWords += res.exclWords
+		tot.pcrel += res.pcrel
+		mu.Unlock()
+		wg.Wait()
+		close(done)
+	}()
+	select {
+	case <-done:
+	case w := <-hung:
+		rep.Violate("C17/decode-does-not-return", fmt.Sprintf("word %#08x: Decode (or printing its result) has not returned for 30 s - neither an instruction nor an error", w), map[string]interface{}{"word": w})
+		rep.Eval(1)
+		rep.Class("hung")
+		rep.Class("hung2")
+		return // the stuck goroutine cannot be stopped; the deferred Write records what was seen, the process then exits
+	}
+	close(stopDog)
 	rep.Eval(tot.words)
 	for k := range allOps {
 		rep.Class("op:" + k)
